@@ -137,18 +137,32 @@ def gatherOpt (idx : List Int) (pos : List (Option Nat)) (f : Frame) : Frame :=
   { idx := idx,
     cols := f.cols.map fun c => (c.1, pos.map fun p => p.bind fun i => (c.2[i]?).join) }
 
-/-- `_df_reindex` on a pandas object, lines 379-384 (`limit=None`):
-  with a fill method  `_nona(ts).reindex(index, method)`  (rows that are entirely NaN are dropped first),
+/-- `_nona(col)` of ONE column: its non-NaN observations (label, value), in order -/
+def obs : List Int → Col → List (Int × Int)
+  | t :: ts, some v :: vs => (t, v) :: obs ts vs
+  | _ :: ts, Option.none :: vs => obs ts vs
+  | _, _ => []
+
+/-- `_nona(col).reindex(idx, method)`: every requested label takes the observation at the last label `≤ t`
+(`ffill`) / the first label `≥ t` (`bfill`) of the NaN-free column, NaN when there is none -/
+def asofPos (d : Dir) (lab : List Int) (t : Int) : Option Nat :=
+  match d with
+  | .ffill => posAsOf lab t
+  | .bfill => posNext lab t
+
+def asofCol (d : Dir) (fidx : List Int) (c : Col) (idx : List Int) : Col :=
+  let o : List (Int × Int) := obs fidx c
+  idx.map fun t => (asofPos d (o.map Prod.fst) t).bind fun (i : Nat) => (o[i]?).map Prod.snd
+
+/-- `_df_reindex` on a pandas object, lines 379-387 (`limit=None`):
+  with a fill method  `_nona(ts).reindex(index, method)` for a Series / one-column frame and (repaired, C03-A2)
+                      column by column for a DataFrame with several columns, `pd.concat(axis=1)` of the results:
+                      each column is joined as-of on ITS OWN non-NaN observations;
   otherwise           `ts.reindex(index)` -/
 def reindexFrame (f : Frame) (idx : List Int) (m : Option Dir) : Frame :=
   match m with
   | Option.none => gatherOpt idx (idx.map (posOf f.idx)) f
-  | some .ffill =>
-      let src := f.gather ((List.range f.nrows).filter f.rowValid)
-      gatherOpt idx (idx.map (posAsOf src.idx)) src
-  | some .bfill =>
-      let src := f.gather ((List.range f.nrows).filter f.rowValid)
-      gatherOpt idx (idx.map (posNext src.idx)) src
+  | some d => { idx := idx, cols := f.cols.map fun c => (c.1, asofCol d f.idx c.2 idx) }
 
 /-- numpy end alignment, lines 392-399 (repaired: `ts[len(ts)-index:]`): keep the last `n` entries, or pad
 `n - len` NaNs in front -/
@@ -256,5 +270,58 @@ def sync (how : How) (m : Option Dir) (colHow : Option How) (t : Tree) : Res Tre
 `f` receives the arguments reindexed onto the joint index -/
 def presyncArgs (how : How) (m : Option Dir) (args : Tree) : Res Tree :=
   reindexTree (dfIndex how args.flatTop) m args
+
+/-! ### an explicit index as join policy, keyword arguments -/
+
+/-- the `join` / `index` argument: a policy word or an explicitly supplied `pd.Index` (also given as a timeseries or a
+dict with the key 'index', `df_reindex` lines 496-501 / `_index` lines 80-94: all three denote that index) -/
+inductive Join where
+  | how (h : How)
+  | explicit (ix : List Int)
+  deriving Repr, Inhabited
+
+/-- `df_index(listed, join)`, lines 159-167, for both kinds of `join`: an explicit index IS the joint index as soon as
+one member is a pandas object (`_df_index`, line 114-115); without pandas members but with arrays the array branch
+`_np_index(lengths, index)` subscripts the index like a word and raises (`AttributeError`); nothing to align: `None` -/
+def dfIndexJ (j : Join) (ls : List Leaf) : Res Index :=
+  match j with
+  | .how h => .ok (dfIndex h ls)
+  | .explicit ix =>
+    if (tsIndexes ls).isEmpty then
+      if (arrLens ls).isEmpty then .ok .none else .error .other
+    else .ok (.times ix)
+
+/-- `df_sync(dfs, join, method, columns)` with either kind of `join` -/
+def syncJ (j : Join) (m : Option Dir) (colHow : Option How) (t : Tree) : Res Tree :=
+  match j with
+  | .how h => sync h m colHow t
+  | .explicit _ =>
+    match t with
+    | .leaf _ => .ok t
+    | .node _ _ =>
+      let listed := t.flatTop
+      match dfIndexJ j listed with
+      | .error e => .error e
+      | .ok ix =>
+        match reindexTree ix m t with
+        | .error e => .error e
+        | .ok t' =>
+          match colHow with
+          | Option.none => .ok t'
+          | some ch => t'.mapM (recolumnLeaf (joinCols ch (multiCols listed)))
+
+/-- `presync(f)(*args, **kwargs)` with `columns=False` (lines 1019-1032): the joint index is taken over
+`list(args) + list(kwargs.values())`, then `args` (a tuple) and `kwargs` (a dict) are reindexed separately onto it and
+handed to `f` -/
+def presyncCall (j : Join) (m : Option Dir) (args kwargs : List (String × Tree)) : Res (Tree × Tree) :=
+  match dfIndexJ j (flatKids (args ++ kwargs)) with
+  | .error e => .error e
+  | .ok ix =>
+    match reindexTree ix m (.node .tuple args) with
+    | .error e => .error e
+    | .ok a =>
+      match reindexTree ix m (.node .dict kwargs) with
+      | .error e => .error e
+      | .ok k => .ok (a, k)
 
 end Pyg.Align
